@@ -74,6 +74,15 @@ def gen(rng, tier):
                 case['mdtype'] = rng.choice(['int32', 'int64'])
             if case['mdtype'] == 'int8':
                 case['table'] = [[max(-100, min(100, v)) for v in r] for r in case['table']]
+            if rng.random() < 0.25 and case['mdtype'] != 'float64' and len(case['table'][0]) == 1:
+                # labels at the very ends of the requested type's range
+                lo, hi = {None: (-32768, 32767), 'int16': (-32768, 32767), 'int8': (-128, 127), 'int32': (-2**31, 2**31 - 1),
+                          'int64': (-2**62, 2**62)}[case['mdtype']]
+                for _k in range(rng.randint(1, 3)):
+                    case['table'][rng.randrange(nr)] = [rng.choice([hi, hi, lo, hi - 1, lo + 1])]
+                if abs(hi) > 2**40:
+                    case['fmt'] = '%d'
+                    case['dtype'] = 'int64'     # the generic read of the same file: a type that holds the labels
             case['limits'] = _composition(rng, nr) if rng.random() < 0.5 else None
         yield case
     if tier == 'thorough':
